@@ -26,7 +26,7 @@ use std::{
     sync::atomic::{AtomicU64, Ordering},
 };
 
-use parking_lot::Mutex;
+use parking_lot::{Mutex, RwLock};
 use serde::{Deserialize, Serialize};
 use tracing::instrument;
 
@@ -92,9 +92,22 @@ pub struct SlabRouter {
     wal: Option<Mutex<TensorWal>>,
     /// Checkpoint counter for unique IDs.
     checkpoint_counter: AtomicU64,
+    /// Striped per-key locks for `emb:` keys, whose writes span the entity index, the
+    /// embedding slab and the metadata slab and must appear atomic to readers.
+    embedding_key_locks: [RwLock<()>; EMBEDDING_KEY_STRIPES],
 }
 
+/// Number of lock stripes for embedding-class keys.
+const EMBEDDING_KEY_STRIPES: usize = 16;
+
 impl SlabRouter {
+    fn embedding_key_lock(&self, key: &str) -> &RwLock<()> {
+        let hash = key
+            .bytes()
+            .fold(0usize, |acc, b| acc.wrapping_mul(31).wrapping_add(b as usize));
+        &self.embedding_key_locks[hash % EMBEDDING_KEY_STRIPES]
+    }
+
     /// Create a new slab router with default configuration.
     #[must_use]
     pub fn new() -> Self {
@@ -126,6 +139,7 @@ impl SlabRouter {
             ops_count: AtomicU64::new(0),
             wal: None,
             checkpoint_counter: AtomicU64::new(0),
+            embedding_key_locks: std::array::from_fn(|_| RwLock::new(())),
         }
     }
 
@@ -160,6 +174,7 @@ impl SlabRouter {
             ops_count: AtomicU64::new(0),
             wal: Some(Mutex::new(wal)),
             checkpoint_counter: AtomicU64::new(0),
+            embedding_key_locks: std::array::from_fn(|_| RwLock::new(())),
         })
     }
 
@@ -170,6 +185,13 @@ impl SlabRouter {
     /// This function currently always succeeds but returns `Result` for API consistency.
     #[instrument(skip(self, value), fields(key = %key))]
     pub fn put(&self, key: &str, value: TensorData) -> Result<(), SlabRouterError> {
+        let _key_guard = (Self::classify_key(key) == KeyClass::Embedding)
+            .then(|| self.embedding_key_lock(key).write());
+        self.put_inner(key, value)
+    }
+
+    /// `put` without taking the per-key lock (the caller holds it for embedding keys).
+    fn put_inner(&self, key: &str, value: TensorData) -> Result<(), SlabRouterError> {
         self.ops_count.fetch_add(1, Ordering::Relaxed);
 
         match Self::classify_key(key) {
@@ -219,6 +241,7 @@ impl SlabRouter {
 
         match Self::classify_key(key) {
             KeyClass::Embedding => {
+                let _key_guard = self.embedding_key_lock(key).read();
                 if let Some(entity_id) = self.index.get(key) {
                     if let Some(vector) = self.embeddings.get(entity_id) {
                         let mut data = self.metadata.get(key).unwrap_or_default();
@@ -253,6 +276,7 @@ impl SlabRouter {
         // would let two concurrent deletes of one key both report success.
         let removed = match Self::classify_key(key) {
             KeyClass::Embedding => {
+                let _key_guard = self.embedding_key_lock(key).write();
                 let in_index = self.index.get(key).is_some_and(|entity_id| {
                     self.embeddings.delete(entity_id);
                     self.index.remove(key).is_some()
@@ -274,7 +298,10 @@ impl SlabRouter {
     /// Check if a key exists.
     pub fn exists(&self, key: &str) -> bool {
         match Self::classify_key(key) {
-            KeyClass::Embedding => self.index.contains(key) || self.metadata.contains(key),
+            KeyClass::Embedding => {
+                let _key_guard = self.embedding_key_lock(key).read();
+                self.index.contains(key) || self.metadata.contains(key)
+            },
             KeyClass::Cache => self.cache.contains(key),
             _ => self.metadata.contains(key),
         }
@@ -381,6 +408,7 @@ impl SlabRouter {
             ops_count: AtomicU64::new(0),
             wal: None,
             checkpoint_counter: AtomicU64::new(0),
+            embedding_key_locks: std::array::from_fn(|_| RwLock::new(())),
         }
     }
 
@@ -406,6 +434,7 @@ impl SlabRouter {
             ops_count: AtomicU64::new(0),
             wal: Some(Mutex::new(wal)),
             checkpoint_counter: AtomicU64::new(0),
+            embedding_key_locks: std::array::from_fn(|_| RwLock::new(())),
         })
     }
 
@@ -477,6 +506,10 @@ impl SlabRouter {
         // Log to WAL first (if configured). The log lock is held until the write is applied in
         // memory, so that concurrent durable writes take effect in the order they were logged.
         let mut wal_guard = self.wal.as_ref().map(Mutex::lock);
+        // Logging an embedding registers the key in the entity index: do that and the write
+        // itself under the key's lock so that readers see the put as one step.
+        let _key_guard = (Self::classify_key(key) == KeyClass::Embedding)
+            .then(|| self.embedding_key_lock(key).write());
         if let Some(wal) = wal_guard.as_mut() {
             // Log embedding if present
             if let Some(TensorValue::Vector(embedding)) = value.get("_embedding") {
@@ -497,7 +530,7 @@ impl SlabRouter {
         }
 
         // Apply to in-memory state (still under the log lock)
-        let result = self.put(key, value);
+        let result = self.put_inner(key, value);
         drop(wal_guard);
         result
     }
